@@ -197,7 +197,7 @@ Proof.
   - intros H. apply andb_prop in H as [H1 H2]. apply comp_eqb_eq in H1. apply IH in H2. congruence.
   - intros [= -> ->]. apply andb_true_intro. split; [apply comp_eqb_eq|apply IH]; reflexivity.
 Qed.
-Lemma path_eqb_eq p q : path_eqb p q = true <-> comps p = comps q.
+Lemma path_eqb_eq p q : path_eqb p q = true <-> pcomps p = pcomps q.
 Proof. apply comps_eqb_eq. Qed.
 Lemma path_eqb_refl p : path_eqb p p = true. Proof. apply path_eqb_eq. reflexivity. Qed.
 Lemma path_eqb_sym p q : path_eqb p q = path_eqb q p.
@@ -642,7 +642,7 @@ Qed.
    looked up in the map of the path's own class *)
 Theorem find_entry_spec d p :
   find_entry d p = match List.find (fun q => match get_entry (class_map d p) q with Some _ => true | None => false end)
-                                   (walk_paths (List.rev (comps p)) []) with
+                                   (walk_paths (List.rev (pcomps p)) []) with
                    | Some q => get_entry (class_map d p) q | None => None end.
 Proof. unfold find_entry, class_map. apply find_walk_spec. Qed.
 
@@ -669,9 +669,9 @@ Proof. intros (A & _ & B & C). unfold seg_comp. destruct s as [|c r]; [congruenc
     destruct r2 as [|c3 r3]; [|destruct c2 as [|p2]; auto; repeat (destruct p2 as [p2|p2|]; auto)].
     destruct c2 as [|p2]; auto. destruct (Pos.eq_dec p2 46) as [->|N2]; [congruence|]. repeat (destruct p2 as [p2|p2|]; auto); congruence.
 Qed.
-Theorem comps_ordinary segs : segs <> [] -> Forall ordinary segs -> comps (join_with 47 segs) = map CNormal segs.
+Theorem comps_ordinary segs : segs <> [] -> Forall ordinary segs -> pcomps (join_with 47 segs) = map CNormal segs.
 Proof.
-  intros Hne H. unfold comps. rewrite split_on_join47; auto.
+  intros Hne H. unfold pcomps. rewrite split_on_join47; auto.
   2:{ eapply Forall_impl; [|exact H]. intros s (_ & A & _). exact A. }
   assert (match join_with 47 segs with 47 :: _ => [CRoot] | [46] => [CCur] | 46 :: 47 :: _ => [CCur] | _ => [] end = []) as ->.
   { destruct segs as [|s ss]; [congruence|]. inversion H as [|? ? (A & B & C & D) _]; subst.
